@@ -5,18 +5,24 @@ def groups(tier):
              kind='unbounded', timeout=300, backend=['sat', 'cadical', 'cvc5'])
     return [Group('slots.start', entry='h_start', replay='repeat', clause='note_upload_start preserves counter(peer) == number of the peer\'s active uploads, also for a repeated (peer, chunk)', **K),
             Group('slots.end', entry='h_end', clause='note_upload_end releases exactly the slot of the upload that ended; nothing changes when it was not active', **K),
-            Group('slots.gate', entry='h_can_dispatch', clause='can_dispatch_upload <=> in-use count below the per-peer limit (limit 0 = unlimited)', **K)]
+            Group('slots.gate', entry='h_can_dispatch', replay='gate', clause='can_dispatch_upload <=> in-use count below the per-peer limit (limit 0 = unlimited)', **K),
+            Group('timeouts.prune', 'uploads_prune', 'C23/prune.c', entry='h_prune', stub=['Node__note_upload_end'], unwind=4, kind='unbounded', timeout=300,
+                  backend=['cvc5', 'z3', 'sat'], checks=['--bounds-check', '--pointer-check'],
+                  clause='prune_stale_uploads ends THE upload (single-key view) exactly when the transfer timeout is positive and has passed, for its own (peer, chunk), as unsuccessful'),
+            Group('timeouts.every_tick', 'uploads_tick', 'C23/tick.c', entry='h_tick', unwind=3, kind='skeleton', checks=[], skeleton=True, timeout=300, backend=['sat', 'cadical'],
+                  replay='idle_timeout', bound='control-flow skeleton (E3); loops unrolled twice',
+                  clause='every path through Node::tick runs the transfer-timeout pruning pass (also with an empty upload queue)')]
 
 
 def replay(group, trace):
     """the REAL Node: the same (peer, chunk) upload started twice, then acknowledged twice"""
     import sys, os
-    if group.replay != 'repeat':
+    if group.replay not in ('repeat', 'idle_timeout', 'gate'):
         return None, 'no native replay for this group'
     root = os.path.dirname(os.path.dirname(os.path.abspath(__file__)))
     sys.path.insert(0, os.path.join(root, 'replay'))
     import replaylib as R
     exe = R.build_full('C23.cpp', with_daemon=False)
-    rc, out = R.run(exe, [], timeout=60)
+    rc, out = R.run(exe, [] if group.replay == 'repeat' else [group.replay], timeout=60)
     last = [l for l in out.strip().splitlines() if l.strip()][-1:] or ['']
     return rc == 1, last[0][:400]
